@@ -97,8 +97,7 @@ func c11ExecLong(c c11Case) (o core.Obs) {
 		done <- progress{c11LongN, nil}
 	}()
 	o.Evals += c11LongN
-	select {
-	case p := <-done:
+	report := func(p progress) {
 		if p.err != nil {
 			if strings.HasPrefix(p.err.Error(), "PANIC") {
 				o.Fail(c, "longlived/panic/"+c.EP, "render %d of the sequence on one engine: %v", p.k+1, p.err)
@@ -107,8 +106,16 @@ func c11ExecLong(c c11Case) (o core.Obs) {
 			}
 		}
 		o.Count("longlived_renders_returned", int64(p.k))
-	case <-time.After(60 * time.Second):
-		// (a healthy sequence takes some tens of milliseconds)
+	}
+	// (a healthy sequence takes some tens of milliseconds.) Every 60 s without an end the goroutine dump is
+	// looked at; a sequence that is still running is simply waited for (the monitor's own watchdog is the limit)
+	for {
+		select {
+		case p := <-done:
+			report(p)
+			return o
+		case <-time.After(60 * time.Second):
+		}
 		buf := make([]byte, 1<<20)
 		dump := string(buf[:runtime.Stack(buf, true)])
 		var mine string
@@ -132,9 +139,8 @@ func c11ExecLong(c c11Case) (o core.Obs) {
 		}
 		if mine != "" && running == 0 {
 			o.Fail(c, "longlived/render-never-returns(blocked-on-a-lock-nobody-else-holds)/"+c.EP, "render %d of a sequence of distinct templates on ONE engine is parked on a lock while no other goroutine is inside the engine - it waits for itself:\n%s", at[0]+1, clip(mine, 1800))
-		} else {
-			o.Inconclusive = fmt.Sprintf("longlived sequence (%s/%s) not finished after 60 s but still running (render %d)", c.EP, c.Pos, at[0]+1)
+			return o
 		}
+		o.Cell("longlived/slow-but-running")
 	}
-	return o
 }
